@@ -364,6 +364,7 @@ pub fn direct_oracle(line: &str, trace: &str) -> Vec<String> {
     let mut second_of: std::collections::HashMap<u32, bool> = std::collections::HashMap::new();
     let mut cur_first: Option<u32> = None;
     let mut dc_spec: u32 = idc; // last learnt from the sender, advanced by the deliveries that have arrived completely since
+    let mut dc_learnt: u32 = idc; // last learnt from the sender
     let mut received_ok: Vec<(u32, usize)> = Vec::new();
     let mut settled_after_recv: Vec<u32> = Vec::new();
     let mut settled_early: Vec<u32> = Vec::new();
@@ -374,9 +375,38 @@ pub fn direct_oracle(line: &str, trace: &str) -> Vec<String> {
             budget = c.parse().ok();
         }
     }
+    // C10: as long as the sender has kept to the protocol (no abort, no contradictory continuation, no transfer beyond
+    // the credit) every delivery is a well-formed message, however it was cut: recv() must not fail to decode it
+    let mut peer_fault = false;
+    let mut first_fields: Option<(String, String, String)> = None;
     for (i, e) in evs.iter().enumerate() {
         let st = steps.get(i + 1).cloned().unwrap_or("");
         let w: Vec<&str> = e.iter().map(|x| x.as_str()).collect();
+        if w[0] == "t" {
+            let f = (field(&w, "did").to_string(), field(&w, "tag").to_string(), field(&w, "fmt").to_string());
+            match &first_fields {
+                None => first_fields = Some(f),
+                Some(ff) => {
+                    if (f.0 != "-" && f.0 != ff.0) || (f.1 != "-" && f.1 != ff.1) || (f.2 != "-" && f.2 != ff.2) {
+                        peer_fault = true;
+                    }
+                }
+            }
+            if field(&w, "ab") == "1" {
+                peer_fault = true;
+            }
+            if field(&w, "ab") == "1" || field(&w, "more") == "0" {
+                first_fields = None;
+            }
+        }
+        for tok in st.split_whitespace() {
+            if let Some(err) = tok.strip_prefix("recv=err:") {
+                if err.starts_with("MessageDecode") && !peer_fault {
+                    v.push(format!("c10-valid-message-undecodable: recv() at step {} failed with {} although every delivery so far was a well-formed message sent within the protocol", i + 1, err));
+                }
+                peer_fault = true;
+            }
+        }
         match w[0] {
             "t" => {
                 let did = opt_u32(field(&w, "did"));
@@ -397,6 +427,7 @@ pub fn direct_oracle(line: &str, trace: &str) -> Vec<String> {
             "pflow" => {
                 if let Some(dc) = opt_u32(field(&w, "dc")) {
                     dc_spec = dc;
+                    dc_learnt = dc;
                 }
             }
             "pset" => {
@@ -450,6 +481,11 @@ pub fn direct_oracle(line: &str, trace: &str) -> Vec<String> {
                     if !faulty && ahead != 0 && ahead < 0x8000_0000 {
                         v.push(format!("c09-dc-double-count: flow reports delivery-count {} but the sender's last count plus arrivals is {}", dc, dc_spec));
                     }
+                    // the receiver counts a delivery when the application takes it, so it may lag behind the arrivals,
+                    // but never behind the last count the sender has told it
+                    if !faulty && dc.wrapping_sub(dc_learnt) >= 0x8000_0000 {
+                        v.push(format!("c09-dc-stale: flow reports delivery-count {} although the sender's last flow said {} (serial arithmetic)", dc, dc_learnt));
+                    }
                 }
                 if let Some(r) = t.strip_prefix("P(") {
                     let parts: Vec<&str> = r.trim_end_matches(')').split(',').collect();
@@ -494,6 +530,115 @@ pub fn direct_oracle(line: &str, trace: &str) -> Vec<String> {
                     }
                 }
                 rest_tok = &inner[end..];
+            }
+        }
+    }
+    // C09 replenishment: in automatic credit mode (and without set_credit / drain calls or peer faults), once the
+    // application has taken and accepted everything that arrived, the sender must not be left without credit
+    let auto = field(&hw, "mode").starts_with("auto");
+    let sender_moves_count = evs.iter().any(|e| e[0] == "pflow" && e.iter().any(|x| x.starts_with("dc=") && x != "dc=-"));
+    let peer_faults = evs.iter().any(|e| e[0] == "t" && e.iter().any(|x| x == "ab=1")) || {
+        // a continuation that contradicts the first frame of its delivery
+        let mut first: Option<(String, String)> = None;
+        let mut bad = false;
+        for e in &evs {
+            if e[0] == "t" {
+                let w: Vec<&str> = e.iter().map(|x| x.as_str()).collect();
+                let f = (field(&w, "did").to_string(), field(&w, "tag").to_string());
+                match &first {
+                    None => first = Some(f),
+                    Some(ff) => {
+                        if (f.0 != "-" && f.0 != ff.0) || (f.1 != "-" && f.1 != ff.1) {
+                            bad = true;
+                        }
+                    }
+                }
+                if field(&w, "more") == "0" {
+                    first = None;
+                }
+            }
+        }
+        bad
+    };
+    if auto && !peer_faults && !sender_moves_count && !evs.iter().any(|e| matches!(e[0].as_str(), "cred" | "drain")) {
+        let mut limit: Option<u32> = None; // delivery-count + credit of the last flow we wrote
+        let mut sender_dc: u32 = idc; // deliveries the sender has sent completely
+        let mut held: Vec<u32> = Vec::new(); // returned by recv(), not yet accepted
+        let mut arrived_not_taken = 0usize;
+        let mut open_delivery = false;
+        let scan_flows = |st: &str, limit: &mut Option<u32>| {
+            let mut rest_tok = st;
+            while let Some(pos) = rest_tok.find("F(") {
+                let inner = &rest_tok[pos + 2..];
+                let end = inner.find(')').unwrap_or(inner.len());
+                let (mut dc, mut c) = (None, None);
+                for kv in inner[..end].split(',') {
+                    if let Some(x) = kv.strip_prefix("dc=") {
+                        dc = x.parse::<u32>().ok();
+                    }
+                    if let Some(x) = kv.strip_prefix("c=") {
+                        c = x.parse::<u32>().ok();
+                    }
+                }
+                if let (Some(dc), Some(c)) = (dc, c) {
+                    *limit = Some(dc.wrapping_add(c));
+                }
+                rest_tok = &inner[end..];
+            }
+        };
+        scan_flows(steps.first().cloned().unwrap_or(""), &mut limit);
+        let mut recv_pending = false; // the receiver is inside a pending recv(): accept events of the script are no-ops
+        for (i, e) in evs.iter().enumerate() {
+            let st = steps.get(i + 1).cloned().unwrap_or("");
+            let w: Vec<&str> = e.iter().map(|x| x.as_str()).collect();
+            if st.contains("recv=") || w[0] == "rcancel" {
+                recv_pending = false;
+            } else if w[0] == "recv" {
+                recv_pending = true;
+            }
+            if (recv_pending && matches!(w[0], "acc" | "accn" | "accall")) || st.contains("recv=err") {
+                break; // not judged
+            }
+            match w[0] {
+                "t" => {
+                    open_delivery = true;
+                    if field(&w, "ab") == "1" {
+                        open_delivery = false;
+                    } else if field(&w, "more") == "0" {
+                        open_delivery = false;
+                        sender_dc = sender_dc.wrapping_add(1);
+                        arrived_not_taken += 1;
+                    }
+                }
+                "pflow" => {
+                    if let Some(dc) = opt_u32(field(&w, "dc")) {
+                        sender_dc = dc;
+                    }
+                }
+                "acc" => {
+                    if !held.is_empty() {
+                        held.remove(0);
+                    }
+                }
+                "accn" => {
+                    held.pop();
+                }
+                "accall" => held.clear(),
+                _ => {}
+            }
+            for tok in st.split_whitespace() {
+                if let Some(r) = tok.strip_prefix("recv=ok(") {
+                    let did: u32 = r.split(',').next().and_then(|x| x.strip_prefix("d=")).and_then(|x| x.parse().ok()).unwrap_or(0);
+                    held.push(did);
+                    arrived_not_taken = arrived_not_taken.saturating_sub(1);
+                }
+            }
+            scan_flows(st, &mut limit);
+            if let Some(l) = limit {
+                if l == sender_dc && held.is_empty() && arrived_not_taken == 0 && !open_delivery {
+                    v.push(format!("c09-auto-credit-stall: after step {} the application has taken and accepted every delivery, yet the last flow allows deliveries only up to count {} which the sender has reached: a sender that respects credit is stalled", i + 1, l));
+                    break;
+                }
             }
         }
     }
@@ -627,6 +772,28 @@ pub fn gen_case(r: &mut Rng, thorough: bool) -> String {
         _ => r.below(100) as u32,
     };
     let mut evs: Vec<String> = Vec::new();
+    if mode.starts_with("auto") && r.below(6) == 0 {
+        // a stream: a sender that respects credit sends as long as it has credit; the application takes and accepts
+        // every delivery (one by one or in batches); all deliveries of one stream are settled the same way
+        let max: u64 = mode[5..].parse().unwrap_or(1);
+        let settled = match r.below(3) { 0 => Some(true), 1 => Some(false), _ => None };
+        let total = max * 2 + r.range(1, if thorough { 40 } else { 12 });
+        let batch = r.range(1, max.max(1)) as usize;
+        let mut pending = 0usize;
+        for k in 0..total {
+            for f in delivery_frames(r, did, settled, None, false) {
+                evs.push(f);
+            }
+            did = did.wrapping_add(1);
+            evs.push("recv".into());
+            pending += 1;
+            if pending >= batch || k == total - 1 {
+                evs.push(if pending == 1 { "acc".into() } else { "accall".into() });
+                pending = 0;
+            }
+        }
+        return format!("rx mode={} second={} idc={} | {}", mode, if second { 1 } else { 0 }, idc, evs.join(" ; "));
+    }
     let n = r.range(3, if thorough { 30 } else { 16 });
     let faults = r.below(3) == 0;
     let mut dc_peer = idc; // what an honest sender would report
